@@ -9,6 +9,7 @@ import (
 	"sort"
 	"strings"
 
+	"seehuhn.de/go/pdf/zzverif/checks/c08"
 	"seehuhn.de/go/pdf/zzverif/ref/pdffile"
 )
 
@@ -110,6 +111,9 @@ type table struct {
 
 	// lengthwire.go
 	lenWires []lenWire
+
+	// LZW table-state bodies (generator shared with C08)
+	lzwStates []c08.LZWStateCase
 }
 
 // Mut identifies a mutant (JSON-able; informational in replays, the mutated file itself is stored too).
@@ -341,6 +345,10 @@ func buildTable(seeds []*Seed, thorough bool) (*table, error) {
 		t.chainLen = 4
 	}
 	t.groups = append(t.groups, group{seed: -1, kind: "craft-filters", n: chainCount(t.chainLen) * len(chainPayloadNames)})
+	// one LZWDecode stream per table-state body around the full code table
+	t.lzwStates = c08.LZWStateCases(!thorough)
+	t.groups = append(t.groups, group{seed: -1, kind: "craft-lzwstate", n: len(t.lzwStates)})
+	t.dims["lzw_state_streams"] = fmt.Sprintf("%d documents with one LZWDecode image stream: C08's table-state bodies (clear + N filler codes around the full table%s + every tail of length <= 4 (literal filler) / <= 3 (kwkwk filler) over {top code, top-1, clear, EOD, literal}, both EarlyChange values)", len(t.lzwStates), map[bool]string{false: "", true: " and around every code-width boundary"}[thorough])
 	// crafted /Length wirings (lengthwire.go)
 	t.lenWires = lenWireCases(thorough)
 	t.groups = append(t.groups, group{seed: -1, kind: "len-wire", n: len(t.lenWires)})
@@ -514,6 +522,10 @@ func (t *table) mutant(idx int) (data []byte, mu Mut, trivial bool, err error) {
 	if g.seed < 0 {
 		if strings.HasPrefix(g.kind, "xref-") || g.kind == "pfx-craft" {
 			return t.xrefCrafted(g, k)
+		}
+		if g.kind == "craft-lzwstate" {
+			c := t.lzwStates[k]
+			return buildLZWStateFile(c.EarlyChange, c.Body()), Mut{Seed: "crafted", Kind: g.kind, Index: k, Desc: "crafted: " + c.String()}, false, nil
 		}
 		if g.kind == "len-wire" {
 			c := t.lenWires[k]
